@@ -10,6 +10,7 @@ CONSTANTS
   MaxConnOps = @CONNOPS@
   Algos = {"smooth", "simple", "sticky", "wlc_smooth", "wlc_simple"}
   MaxOps = @OPS@
+  Focus = @FOCUS@
 INIT GInit
 NEXT GNext
 INVARIANTS Emit
